@@ -902,6 +902,79 @@ Proof.
   rewrite (htons_read e p Hp). reflexivity.
 Qed.
 
+(* ------------------------------------------------------------------ *)
+(* the control buffer as the kernel fills it (put_cmsgs)               *)
+
+Lemma takeN_app_ge n (a b : bytes) : lenN a <= n -> takeN n (a ++ b) = a ++ takeN (n - lenN a) b.
+Proof.
+  intros H. unfold takeN, lenN in *. rewrite firstn_app. rewrite firstn_all2 by lia.
+  f_equal. f_equal. lia.
+Qed.
+
+Lemma lenN_native_u16 e n : lenN (native_u16 e n) = 2.
+Proof. destruct e; reflexivity. Qed.
+
+Lemma lenN_put_u16 n : lenN (put_u16 n) = 2.
+Proof. reflexivity. Qed.
+
+Lemma lenN_sockaddr_in e a p : length a = 4%nat -> lenN (sockaddr_in e a p) = 16.
+Proof.
+  intros Ha. unfold sockaddr_in. rewrite !lenN_app, lenN_native_u16, lenN_put_u16, (lenN_len a 4 Ha).
+  reflexivity.
+Qed.
+
+Lemma lenN_sockaddr_in6_head e a p flow : length a = 16%nat -> length flow = 4%nat ->
+  lenN (native_u16 e AF_INET6 ++ put_u16 p ++ flow ++ a) = 24.
+Proof.
+  intros Ha Hf. rewrite !lenN_app, lenN_native_u16, lenN_put_u16, (lenN_len a 16 Ha), (lenN_len flow 4 Hf).
+  reflexivity.
+Qed.
+
+(* IPv4: struct sockaddr_in (16 bytes) fits every buffer with 16 bytes of data room: stored whole, no MSG_CTRUNC *)
+Lemma cmsg4_kernel e a p hdr al room : length a = 4%nat -> p < 65536 -> hdr + 16 <= room ->
+  recv_udp_kernel e hdr al room [(SOL_IP, IP_ORIGDSTADDR, sockaddr_in e a p)] = (Ok (Some (fmt4 a, p)), false).
+Proof.
+  intros Ha Hp Hr. unfold recv_udp_kernel. cbn [put_cmsgs].
+  replace (room <? hdr) with false by lia.
+  rewrite (lenN_sockaddr_in e a p Ha). replace (hdr + 16 <=? room) with true by lia.
+  cbv beta iota zeta. cbn [put_cmsgs fst snd negb orb].
+  pose proof (cmsg4 e a p [] [] [] Ha Hp eq_refl) as H. rewrite app_nil_r in H. cbn [app] in H.
+  f_equal. exact H.
+Qed.
+
+(* IPv6: struct sockaddr_in6 is 28 bytes.  Whatever the buffer, as long as it has 24 bytes of data room
+   (recv_udp offers CMSG_SPACE(24)), the stored data begins with family, port, flowinfo and the whole
+   address - the cut, if any, falls inside the scope id - and recv_udp decodes the dialled destination *)
+Lemma cmsg6_kernel e a p flow scope hdr al room : length a = 16%nat -> length flow = 4%nat -> p < 65536 ->
+  hdr + 24 <= room ->
+  fst (recv_udp_kernel e hdr al room [(SOL_IPV6, IPV6_ORIGDSTADDR, sockaddr_in6 e a p flow scope)])
+  = Ok (Some (fmt6_ntop a, p)).
+Proof.
+  intros Ha Hf Hp Hr. unfold recv_udp_kernel. cbn [put_cmsgs fst].
+  replace (room <? hdr) with false by lia.
+  pose proof (lenN_sockaddr_in6_head e a p flow Ha Hf) as Hh.
+  assert (E : sockaddr_in6 e a p flow scope = (native_u16 e AF_INET6 ++ put_u16 p ++ flow ++ a) ++ scope).
+  { unfold sockaddr_in6. rewrite <- !app_assoc. reflexivity. }
+  destruct (hdr + lenN (sockaddr_in6 e a p flow scope) <=? room).
+  - unfold sockaddr_in6. exact (cmsg6 e a p flow scope [] [] Ha Hf Hp eq_refl).
+  - rewrite E, takeN_app_ge by lia. rewrite <- !app_assoc.
+    exact (cmsg6 e a p flow _ [] [] Ha Hf Hp eq_refl).
+Qed.
+
+(* ... and the kernel reports MSG_CTRUNC for EVERY such datagram when the data room is below 28 bytes:
+   the flag says nothing about whether the destination could be read *)
+Lemma cmsg6_kernel_ctrunc e a p flow scope hdr al room : length a = 16%nat -> length flow = 4%nat ->
+  length scope = 4%nat -> hdr <= room -> room < hdr + 28 ->
+  snd (recv_udp_kernel e hdr al room [(SOL_IPV6, IPV6_ORIGDSTADDR, sockaddr_in6 e a p flow scope)]) = true.
+Proof.
+  intros Ha Hf Hs H1 H2. unfold recv_udp_kernel. cbn [put_cmsgs snd].
+  replace (room <? hdr) with false by lia.
+  assert (L : lenN (sockaddr_in6 e a p flow scope) = 28).
+  { unfold sockaddr_in6. rewrite !lenN_app, lenN_native_u16, lenN_put_u16, (lenN_len a 16 Ha), (lenN_len flow 4 Hf),
+      (lenN_len scope 4 Hs). reflexivity. }
+  rewrite L. replace (hdr + 28 <=? room) with false by lia. reflexivity.
+Qed.
+
 (* ================================================================== *)
 (* 7. CONNECT payload and UDP header                                   *)
 
